@@ -16,6 +16,10 @@ Proof. unfold err_at. destruct (gen_text_pos text s); discriminate. Qed.
 Lemma err_from_not_ok {A} text p mk (y : A) : err_from text p mk = Ok y -> False.
 Proof. unfold err_from. destruct (gen_text_pos_from text p); discriminate. Qed.
 
+Lemma bind_assoc {A B D} (m : res A) (k : A -> res B) (k' : B -> res D) :
+  bind (bind m k) k' = bind m (fun x => bind (k x) k').
+Proof. destruct m; reflexivity. Qed.
+
 (** * Symbolic execution of a successful run: [H : e = Ok y] *)
 
 Ltac ustep :=
@@ -192,13 +196,23 @@ Definition psnd {A C2} (Q : C2 -> Prop) (x : A * C2) : Prop := Q (snd x).
 (* one step of a lockstep proof; calls of callbacks / tokenizer functions are left to [tac] *)
 Ltac bstep :=
   match goal with
-  | |- grel _ _ _ _ (Ok _) (Ok _) => apply gr_ok; try (split; [reflexivity | cbn [snd]; assumption])
+  | |- grel _ _ _ _ (Ok _) (Ok _) =>
+    apply gr_ok; first [assumption | split; [reflexivity | cbn [snd]; assumption]]
   | |- grel _ _ _ _ (Err _) (Err _) => apply gr_err
   | |- grel _ _ _ _ (Panic _) (Panic _) => apply gr_panic
   | |- grel _ _ _ _ OutOfFuel OutOfFuel => apply gr_fuel
   | |- grel _ _ _ _ (err_at _ _ _) (err_at _ _ _) => apply grel_err_at
   | |- grel _ _ _ _ (err_from _ _ _) (err_from _ _ _) => apply grel_err_from
   | |- grel _ _ _ _ (bind ?r _) (bind ?r _) => destruct r; cbn [bind]
+  | |- grel _ _ _ _ (bind (Ok _) _) (bind (Ok _) _) => cbn [bind]
+  | |- grel _ _ _ _ (bind (Err _) _) (bind (Err _) _) => cbn [bind]
+  | |- grel _ _ _ _ (bind (Panic _) _) (bind (Panic _) _) => cbn [bind]
+  | |- grel _ _ _ _ (bind OutOfFuel _) (bind OutOfFuel _) => cbn [bind]
+  | |- grel _ _ _ _ (bind (bind _ _) _) (bind (bind _ _) _) => rewrite !bind_assoc
+  | |- grel _ _ _ _ (bind (if ?b then _ else _) _) (bind (if ?b then _ else _) _) =>
+    destruct b eqn:?
+  | |- grel _ _ _ _ (bind (match ?x with _ => _ end) _) (bind (match ?x with _ => _ end) _) =>
+    destruct x eqn:?
   | |- grel _ _ _ _ (if ?b then _ else _) (if ?b then _ else _) => destruct b eqn:?
   | |- grel _ _ _ _ (let '(_, _) := ?x in _) (let '(_, _) := ?x in _) => destruct x
   | |- grel _ _ _ _ (match ?x with _ => _ end) (match ?x with _ => _ end) => destruct x eqn:?
@@ -211,14 +225,16 @@ Ltac bcall lem :=
   [ eapply lem; eassumption
   | let x1 := fresh "x" in let x2 := fresh "x" in let HP := fresh "HP" in
     intros x1 x2 HP;
-    try (destruct x1 as [? ?], x2 as [? ?], HP as [? ?]; cbn [fst snd] in *; subst)
+    try (destruct x1 as [? ?], x2 as [? ?], HP as [? ?]; cbn [fst snd] in *; subst);
+    cbv beta iota
   | ].
 
 (* the shape of a side condition: [en -> forall x2 y, Q2 x2 -> k x2 = Ok y -> Q2' y] *)
 Ltac side_intro :=
   let x := fresh "x" in let y := fresh "y" in let Hq := fresh "Hq" in let H := fresh "H" in
   intros _ x y Hq H; unfold psnd in *;
-  try (destruct x as [? ?]); cbn [fst snd] in *; cbv beta iota zeta in H.
+  repeat match goal with z : (_ * _)%type |- _ => destruct z end;
+  cbn [fst snd] in *; cbv beta iota zeta in H.
 
 Section Binary.
 Variable text : bytes.
@@ -236,15 +252,143 @@ Notation PR := (prel R).
 Notation PQ := (psnd Q).
 Notation G := (grel en e0 PR PQ).
 
-Ltac q0 := repeat fw HQ.
+Ltac qs0 := repeat fw HQ.
+
+(* [callt]: related calls, [ih]: closes a recursive call, [sidet]: forward chaining for sides *)
+Ltac bgo callt ih sidet :=
+  repeat first [ bstep | ih
+               | (callt; [ | side_intro; usteps; sidet; assumption ]) ].
+
+Ltac noih := fail.
+Ltac call0 := bcall Hev.
 
 Lemma b_parse_comment s c1 c2 : R c1 c2 ->
   G (parse_comment text C1 ev1 s c1) (parse_comment text C2 ev2 s c2).
+Proof. intros HR. unfold parse_comment. bgo call0 noih qs0. Qed.
+
+Lemma b_parse_pi s c1 c2 : R c1 c2 ->
+  G (parse_pi text C1 ev1 s c1) (parse_pi text C2 ev2 s c2).
+Proof. intros HR. unfold parse_pi. bgo call0 noih qs0. Qed.
+
+Notation U f := (f text C2 ev2 Q HQ).
+
+Ltac qs1 := repeat first [fw HQ | fw (U u_parse_comment) | fw (U u_parse_pi)
+                        | fw (U u_parse_misc_loop)].
+Ltac call1 := first [bcall Hev | bcall b_parse_comment | bcall b_parse_pi].
+
+Lemma b_parse_misc_loop fuel : forall s c1 c2, R c1 c2 ->
+  G (parse_misc_loop text C1 ev1 fuel s c1) (parse_misc_loop text C2 ev2 fuel s c2).
 Proof.
-  intros HR. unfold parse_comment.
-  repeat bstep.
-  bcall Hev. repeat bstep.
-  side_intro. usteps; q0; assumption.
+  induction fuel; intros s c1 c2 HR; [apply gr_fuel|].
+  cbn [parse_misc_loop].
+  bgo call1 ltac:(apply IHfuel; assumption) qs1.
+Qed.
+
+Lemma b_parse_misc s c1 c2 : R c1 c2 ->
+  G (parse_misc text C1 ev1 s c1) (parse_misc text C2 ev2 s c2).
+Proof. unfold parse_misc. apply b_parse_misc_loop. Qed.
+
+Lemma b_parse_entity_decl s c1 c2 : R c1 c2 ->
+  G (parse_entity_decl text C1 ev1 s c1) (parse_entity_decl text C2 ev2 s c2).
+Proof. intros HR. unfold parse_entity_decl. bgo call0 noih qs0. Qed.
+
+Ltac qs2 := repeat first [fw HQ | fw (U u_parse_comment) | fw (U u_parse_pi)
+                        | fw (U u_parse_misc) | fw (U u_parse_entity_decl)
+                        | fw (U u_parse_doctype_loop) ].
+Ltac call2 := first [bcall Hev | bcall b_parse_comment | bcall b_parse_pi
+                 | bcall b_parse_entity_decl | bcall b_parse_misc].
+
+Lemma b_parse_doctype_loop fuel : forall start s c1 c2, R c1 c2 ->
+  G (parse_doctype_loop text C1 ev1 fuel start s c1)
+    (parse_doctype_loop text C2 ev2 fuel start s c2).
+Proof.
+  induction fuel; intros start s c1 c2 HR; [apply gr_fuel|].
+  cbn [parse_doctype_loop].
+  bgo call2 ltac:(apply IHfuel; assumption) qs2.
+Qed.
+
+Lemma b_parse_doctype s c1 c2 : R c1 c2 ->
+  G (parse_doctype text C1 ev1 s c1) (parse_doctype text C2 ev2 s c2).
+Proof.
+  intros HR. unfold parse_doctype.
+  bgo call2 ltac:(apply b_parse_doctype_loop; assumption) qs2.
+Qed.
+
+Ltac qs3 := repeat first [fw HQ | fw (U u_parse_element_loop)].
+
+Lemma b_parse_element_loop fuel : forall ts s c1 c2, R c1 c2 ->
+  G (parse_element_loop text C1 ev1 fuel ts s c1)
+    (parse_element_loop text C2 ev2 fuel ts s c2).
+Proof.
+  induction fuel; intros ts s c1 c2 HR; [apply gr_fuel|].
+  cbn [parse_element_loop].
+  bgo call0 ltac:(apply IHfuel; assumption) qs3.
+Qed.
+
+Lemma b_parse_element s c1 c2 : R c1 c2 ->
+  G (parse_element text C1 ev1 s c1) (parse_element text C2 ev2 s c2).
+Proof.
+  intros HR. unfold parse_element.
+  bgo call0 ltac:(apply b_parse_element_loop; assumption) qs3.
+Qed.
+
+Lemma b_parse_cdata s c1 c2 : R c1 c2 ->
+  G (parse_cdata text C1 ev1 s c1) (parse_cdata text C2 ev2 s c2).
+Proof. intros HR. unfold parse_cdata. bgo call0 noih qs0. Qed.
+
+Lemma b_parse_close_element s c1 c2 : R c1 c2 ->
+  G (parse_close_element text C1 ev1 s c1) (parse_close_element text C2 ev2 s c2).
+Proof. intros HR. unfold parse_close_element. bgo call0 noih qs0. Qed.
+
+Lemma b_parse_text s c1 c2 : R c1 c2 ->
+  G (parse_text text C1 ev1 s c1) (parse_text text C2 ev2 s c2).
+Proof. intros HR. unfold parse_text. bgo call0 noih qs0. Qed.
+
+Ltac qs4 := repeat first [fw HQ | fw (U u_parse_comment) | fw (U u_parse_pi)
+                        | fw (U u_parse_misc) | fw (U u_parse_doctype)
+                        | fw (U u_parse_element) | fw (U u_parse_cdata)
+                        | fw (U u_parse_close_element) | fw (U u_parse_text)
+                        | fw (U u_parse_content_loop) | fw (U u_parse_content) ].
+Ltac call4 := first [bcall Hev | bcall b_parse_comment | bcall b_parse_pi
+                 | bcall b_parse_cdata | bcall b_parse_close_element
+                 | bcall b_parse_element | bcall b_parse_text | bcall b_parse_misc
+                 | bcall b_parse_doctype ].
+
+Lemma b_parse_content_loop fuel : forall depth s c1 c2, R c1 c2 ->
+  G (parse_content_loop text C1 ev1 fuel depth s c1)
+    (parse_content_loop text C2 ev2 fuel depth s c2).
+Proof.
+  induction fuel; intros depth s c1 c2 HR; [apply gr_fuel|].
+  cbn [parse_content_loop].
+  bgo call4 ltac:(apply IHfuel; assumption) qs4.
+Qed.
+
+Lemma b_parse_content s c1 c2 : R c1 c2 ->
+  G (parse_content text C1 ev1 s c1) (parse_content text C2 ev2 s c2).
+Proof. unfold parse_content. apply b_parse_content_loop. Qed.
+
+Theorem b_parse_document dtd c1 c2 : R c1 c2 ->
+  grel en e0 R Q (parse_document text C1 ev1 dtd c1) (parse_document text C2 ev2 dtd c2).
+Proof.
+  intros HR. unfold parse_document.
+  bgo ltac:(first [call4 | bcall b_parse_content]) noih qs4.
 Qed.
 
 End Binary.
+
+(* the flag of parse_document is read once *)
+Lemma parse_document_flag text C ev c :
+  parse_document text C ev false c = Err DtdDetected \/
+  parse_document text C ev false c = parse_document text C ev true c.
+Proof.
+  unfold parse_document.
+  destruct (if starts_with (stream_new text) [239; 187; 191] then _ else _) as [s1| | |];
+    cbn [bind]; auto.
+  destruct (if starts_with_declaration s1 then _ else _) as [s2| | |]; cbn [bind]; auto.
+  destruct (parse_misc text C ev s2 c) as [[s3 c3]| | |]; cbn [bind]; auto.
+  destruct (starts_with (skip_spaces s3) (b "<!DOCTYPE")); cbn [negb bind]; auto.
+Qed.
+
+Print Assumptions b_parse_document.
+Print Assumptions u_parse_document.
+Print Assumptions parse_document_flag.
